@@ -261,3 +261,11 @@ Proof. vm_compute. split; reflexivity. Qed.
 Theorem C11_register_aliases_from_source : Proofs.Guards.register_aliases_from_source_stmt.
 Proof. exact Proofs.Guards.register_aliases_from_source. Qed.
 Print Assumptions C11_register_aliases_from_source.
+
+(* ---- Arithmetic.eval as the source has it (Gen/Guards.v): the expression text goes to the builtin eval as written, with no builtins and the
+   environment handed in; the POSITION of the item plays no part (so an arithmetic expression without labels is settled); every
+   exception becomes an AssemblerError at the line; the result must be an int *)
+From BB Require Gen.Guards Proofs.Guards.
+Theorem C11_arithmetic_eval_from_source : Proofs.Guards.arithmetic_eval_from_source_stmt.
+Proof. exact Proofs.Guards.arithmetic_eval_from_source. Qed.
+Print Assumptions C11_arithmetic_eval_from_source.
